@@ -251,6 +251,9 @@ int POOL_resize(POOL_ctx* ctx, size_t numThreads)
     ZSTD_pthread_mutex_lock(&ctx->queueMutex);
     result = POOL_resize_internal(ctx, numThreads);
     ZSTD_pthread_cond_broadcast(&ctx->queuePopCond);
+    /* a pool created with a queue size of 0 is full when all threads up to the limit are busy :
+     * raising the limit makes room for whoever is blocked in POOL_add() */
+    ZSTD_pthread_cond_broadcast(&ctx->queuePushCond);
     ZSTD_pthread_mutex_unlock(&ctx->queueMutex);
     return result;
 }
